@@ -182,17 +182,51 @@ func (AI) Execute(t *testing.T, sc *core.Scenario) *core.Result {
 	// per table, per server lifetime
 	var seen [2]map[int]gen
 	var maxGen, maxExplicit [2]int
-	var explicitOn [2]map[string]int     // the highest explicit value accepted per branch
-	pending := make([][][2]int, b.NSess) // per session: (table, value) generated in its open transaction
+	type expl struct {
+		branch     string
+		rolledBack bool
+	}
+	var explicitOn [2]map[int]expl         // explicit values accepted: where, and whether their transaction was rolled back
+	pending := make([][][2]int, b.NSess)   // per session: (table, value) generated in its open transaction
+	var explicitOpenAtDrop [2]map[int]bool // explicit values that were held by an open transaction when the table was dropped elsewhere
+	pendingExplicit := make([][][2]int, b.NSess)
 	reset := func() {
 		for t := range seen {
 			seen[t] = map[int]gen{}
 			maxGen[t], maxExplicit[t] = 0, 0
-			explicitOn[t] = map[string]int{}
+			explicitOn[t] = map[int]expl{}
+			explicitOpenAtDrop[t] = map[int]bool{}
 		}
 		for i := range pending {
 			pending[i] = nil
 		}
+		for i := range pendingExplicit {
+			pendingExplicit[i] = nil
+		}
+	}
+	// endTxn: COMMIT; a refused COMMIT rolls the transaction back, and what it had been given counts
+	// as given to a rolled-back transaction
+	endTxn := func(i int, s *Sess) {
+		if _, err := s.Exec(ctx, "COMMIT"); err != nil {
+			res.Probe("commit_refused")
+			// a conflict makes dolt roll the transaction back by itself; any other commit error (a schema
+			// conflict with a concurrent DROP TABLE) leaves the session inside its transaction: the
+			// client's reaction is the same in both cases
+			s.Exec(ctx, "ROLLBACK")
+			for _, tv := range pending[i] {
+				if g, ok := seen[tv[0]][tv[1]]; ok {
+					g.rolledBack = true
+					seen[tv[0]][tv[1]] = g
+				}
+			}
+			for _, tv := range pendingExplicit[i] {
+				if e, ok := explicitOn[tv[0]][tv[1]]; ok {
+					e.rolledBack = true
+					explicitOn[tv[0]][tv[1]] = e
+				}
+			}
+		}
+		pending[i], pendingExplicit[i] = nil, nil
 	}
 	ddl := [2]string{"CREATE TABLE ai0 (id INT PRIMARY KEY AUTO_INCREMENT, v INT)", "CREATE TABLE ai1 (id BIGINT PRIMARY KEY AUTO_INCREMENT, v INT, KEY (v))"}
 	reset()
@@ -224,9 +258,8 @@ func (AI) Execute(t *testing.T, sc *core.Scenario) *core.Result {
 				explicit[i] = true
 			}
 		case "commit":
-			s.Exec(ctx, "COMMIT")
+			endTxn(i, s)
 			explicit[i] = false
-			pending[i] = nil
 		case "rollback":
 			if _, err := s.Exec(ctx, "ROLLBACK"); err == nil {
 				res.Fault("rollback")
@@ -236,16 +269,21 @@ func (AI) Execute(t *testing.T, sc *core.Scenario) *core.Result {
 						seen[tv[0]][tv[1]] = g
 					}
 				}
+				for _, tv := range pendingExplicit[i] {
+					if e, ok := explicitOn[tv[0]][tv[1]]; ok {
+						e.rolledBack = true
+						explicitOn[tv[0]][tv[1]] = e
+					}
+				}
 			}
-			pending[i] = nil
+			pending[i], pendingExplicit[i] = nil, nil
 			explicit[i] = false
 		case "droptable":
 			// DROP TABLE on this branch re-derives the sequence from the branches that keep the table.
 			// What only the dropped table had (and what a rolled-back transaction was given) may come
 			// again; what the other branches were given - committed or in a transaction still open - may not.
-			s.Exec(ctx, "COMMIT")
+			endTxn(i, s)
 			explicit[i] = false
-			pending[i] = nil
 			if _, err := s.Exec(ctx, "DROP TABLE "+tbl); err != nil {
 				res.Probe("droptable_refused")
 				break
@@ -263,6 +301,14 @@ func (AI) Execute(t *testing.T, sc *core.Scenario) *core.Result {
 					}
 				}
 			}
+			for j := range pendingExplicit {
+				for _, tv := range pendingExplicit[j] {
+					if tv[0] == op.T && cur[j] != cur[i] {
+						explicitOpenAtDrop[op.T][tv[1]] = true
+						res.Probe("value_in_open_transaction_while_table_dropped_elsewhere")
+					}
+				}
+			}
 			maxGen[op.T] = 0
 			for v, g := range seen[op.T] {
 				if g.branch == cur[i] || g.rolledBack {
@@ -271,15 +317,17 @@ func (AI) Execute(t *testing.T, sc *core.Scenario) *core.Result {
 					maxGen[op.T] = max(maxGen[op.T], v)
 				}
 			}
-			delete(explicitOn[op.T], cur[i])
 			maxExplicit[op.T] = 0
-			for _, e := range explicitOn[op.T] {
-				maxExplicit[op.T] = max(maxExplicit[op.T], e)
+			for v, e := range explicitOn[op.T] {
+				if e.branch == cur[i] || e.rolledBack {
+					delete(explicitOn[op.T], v)
+				} else {
+					maxExplicit[op.T] = max(maxExplicit[op.T], v)
+				}
 			}
 		case "createtable":
-			s.Exec(ctx, "COMMIT")
+			endTxn(i, s)
 			explicit[i] = false
-			pending[i] = nil
 			if _, err := s.Exec(ctx, ddl[op.T]); err == nil {
 				res.Fault("table-made-again")
 				if !s.Autocommit {
@@ -292,9 +340,8 @@ func (AI) Execute(t *testing.T, sc *core.Scenario) *core.Result {
 			}
 		case "switch":
 			// finish the transaction first: checkout with pending changes is another subject
-			s.Exec(ctx, "COMMIT")
+			endTxn(i, s)
 			explicit[i] = false
-			pending[i] = nil
 			if _, err := s.Exec(ctx, "CALL dolt_checkout('"+op.Br+"')"); err == nil {
 				if cur[i] != op.Br {
 					res.Fault("branch-switch")
@@ -374,7 +421,10 @@ func (AI) Execute(t *testing.T, sc *core.Scenario) *core.Result {
 						maxExplicit[op.T] = id
 						res.Fault("explicit-value-above-sequence")
 					}
-					explicitOn[op.T][cur[i]] = max(explicitOn[op.T][cur[i]], id)
+					explicitOn[op.T][id] = expl{branch: cur[i]}
+					if !s.Autocommit || explicit[i] {
+						pendingExplicit[i] = append(pendingExplicit[i], [2]int{op.T, id})
+					}
 					continue
 				}
 				generated++
@@ -392,7 +442,11 @@ func (AI) Execute(t *testing.T, sc *core.Scenario) *core.Result {
 				} else if id <= maxGen[op.T] {
 					res.Violate("generated-value-not-increasing", cause(seen[op.T][maxGen[op.T]]), step, "session %d on branch %s got id %d for %s after %d had already been generated", i, cur[i], id, tbl, maxGen[op.T])
 				} else if id <= maxExplicit[op.T] {
-					res.Violate("sequence-not-moved-past-explicit-value", "table="+tbl, step, "session %d on branch %s got id %d for %s although the explicit value %d had been inserted before (on some branch)", i, cur[i], id, tbl, maxExplicit[op.T])
+					key := "table=" + tbl
+					if explicitOpenAtDrop[op.T][maxExplicit[op.T]] {
+						key = "cause=sequence-lowered-by-drop-table-under-open-transaction"
+					}
+					res.Violate("sequence-not-moved-past-explicit-value", key, step, "session %d on branch %s got id %d for %s although the explicit value %d had been inserted before (on some branch)", i, cur[i], id, tbl, maxExplicit[op.T])
 				}
 				seen[op.T][id] = gen{val: id, step: step, sess: i, branch: cur[i]}
 				maxGen[op.T] = max(maxGen[op.T], id)
